@@ -3,6 +3,7 @@ import IpaVerif.Model.Serde
 import IpaVerif.Model.Ristretto
 import IpaVerif.Model.Transpose
 import IpaVerif.Model.ReportPack
+import IpaVerif.Model.QueryString
 import IpaVerif.Generated.C09Wire
 import IpaVerif.Generated.PrimeFields
 import IpaVerif.Generated.C09Serde
@@ -277,9 +278,86 @@ def vecToBytes (t : Ty) (arg : String) : Option String := do
     if rest.isEmpty then pure v else none)
   pure (bytesHex (encAll (codecOf t) rows))
 
+/-! ### query string (`c09_query`)
+
+* `c09.query str <qt> <field> <size> [<mbk> <dp> <eps-text> <pm>]` — `Display for QueryConfigQueryParams`
+* `c09.query parse <query-string>` — the axum extractor; `ok <qt> <field> <size> [<mbk> <dp> <eps-text> <pm>]` | `err`
+* `c09.query json <qt> <field> <size> […]` — `serde_json` round trip of `QueryConfig`; `rt-ok`
+The generator only uses keys/values made of unreserved characters, so splitting at `&` and `=` is all
+there is to url-decoding here. -/
+
+open IpaVerif.QueryString in
+def parseCfg (args : List String) : Option QueryConfig := do
+  match args with
+  | qt :: f :: size :: rest =>
+    let fieldType ← if f == "Fp31" then some FieldType.fp31 else if f == "Fp32BitPrime" then some .fp32 else none
+    let size ← size.toNat?
+    let queryType ← match qt, rest with
+      | "test-multiply", [] => some QueryType.testMultiply
+      | "test-add", [] => some .testAdd
+      | "test-sharded-shuffle", [] => some .testShardedShuffle
+      | "malicious-hybrid", [mbk, dp, eps, pm] =>
+        some (.maliciousHybrid { maxBreakdownKey := ← mbk.toNat?, withDp := ← dp.toNat?, epsilon := eps, plaintextMatchKeys := pm == "true" })
+      | _, _ => none
+    pure { size := size, fieldType := fieldType, queryType := queryType }
+  | _ => none
+
+open IpaVerif.QueryString in
+def showScalar : Scalar → String
+  | .nat n => toString n
+  | .str s => s
+  | .bool b => if b then "true" else "false"
+
+open IpaVerif.QueryString in
+def showCfg (c : QueryConfig) : String :=
+  let base := s!"{queryTypeStr c.queryType} {fieldName c.fieldType} {c.size}"
+  match c.queryType with
+  | .maliciousHybrid p => s!"{base} {p.maxBreakdownKey} {p.withDp} {p.epsilon} {if p.plaintextMatchKeys then "true" else "false"}"
+  | _ => base
+
+open IpaVerif.QueryString in
+/-- what serde_urlencoded does with a value, per key: numbers must be plain decimals, booleans `true`/`false` -/
+def scalarFor (k v : String) : Option Scalar :=
+  -- a malformed value is kept as text: it fails the typed lookup only if the extractor reads that key
+  if k == "size" || k == "max_breakdown_key" || k == "with_dp" then
+    (if v.all Char.isDigit then (v.toNat?.map .nat).orElse (fun _ => some (.str v)) else some (.str v))
+  else if k == "plaintext_match_keys" then
+    (if v == "true" then some (.bool true) else if v == "false" then some (.bool false) else some (.str v))
+  else some (.str v)
+
+open IpaVerif.QueryString in
+def query (args : List String) : Option String :=
+  match args with
+  | "str" :: rest => do
+      let c ← parseCfg rest
+      pure (String.intercalate "&" ((toPairs c).map (fun (k, v) => s!"{k}={showScalar v}")))
+  | ["parse", qs] =>
+      let kvs := (qs.splitOn "&").map (fun kv => match kv.splitOn "=" with
+        | [k, v] => some (k, v)
+        | _ => none)
+      if kvs.any Option.isNone then some "err" else
+      let kvs := kvs.filterMap id
+      let known := ["size", "field_type", "query_type", "max_breakdown_key", "with_dp", "epsilon", "plaintext_match_keys"]
+      -- a malformed value of a key the extractor reads is an error; unknown keys are ignored
+      let ps := kvs.filter (fun (k, _) => known.contains k)
+      match ps.mapM (fun (k, v) => (scalarFor k v).map (fun s => (k, s))) with
+      | none => some "err"
+      | some ps =>
+        match fromPairs ps with
+        | some c => some ("ok " ++ showCfg c)
+        | none => some "err"
+  | "json" :: rest => (parseCfg rest).map (fun _ => "rt-ok")
+  | "rt" :: rest => do
+      let c ← parseCfg rest
+      match fromPairs (toPairs c) with
+      | some c' => pure ("ok " ++ showCfg c')
+      | none => pure "err"
+  | _ => none
+
 /-- `some response` if the request belongs to this property, else `none`. -/
 def handle (toks : List String) : Option String :=
   match toks with
+  | "c09.query" :: args => some ((query args).getD "bad-request")
   | ["c09.vec", ty, arg] => some ((do vecToBytes (← parseTy ty) arg).getD "bad-request")
   | "c09.pack" :: args => some ((pack args).getD "bad-request")
   | "c09.info" :: args => some ((info args).getD "bad-request")
@@ -358,6 +436,10 @@ def serdeOracle (op : String) (t : Ty) (args : List String) (impl : String) : Op
 /-- Property oracle on (request, implementation response): `some "holds"`, `some "fails <why>"`, or `none`. -/
 def oracle (toks : List String) (impl : String) : Option String :=
   match toks with
+  | "c09.query" :: "json" :: _ => verdict (impl == "rt-ok") "QueryConfig must survive serde_json"
+  | "c09.query" :: "rt" :: rest =>
+      -- the property itself: Display then the extractor returns the configuration
+      verdict (impl == "ok " ++ String.intercalate " " rest) "parsing the query string written for a configuration must return that configuration"
   | ["c09.vec", ty, arg] =>
       -- the result layout is the concatenation of the fixed-size encodings of the rows
       match parseTy ty with
